@@ -654,7 +654,7 @@ def plan(ctx):
     us = [5, 6, 7, 8]
     for fs in subsets(us):
         if t or rng.random() < 0.4:
-            pl.append(({'uris': us, 'ops': [('ps', {u: full[u] for u in us}, ids.fails(fs))]}, ('dfs', 1, 1500 if t else 150)))
+            pl.append(({'uris': us, 'ops': [('ps', {u: full[u] for u in us}, ids.fails(fs))]}, ('dfs', 1, 800 if t else 150)))
     # failure followed by another failing call in the same process, open/close cycles, direct pre-open
     pl.append(({'uris': [5, 6], 'ops': [('ps', None, ids.fails([5])), ('ps', None, ids.fails([6])), ('open', [6]), ('open', []), ('open', []),
                                          ('close',), ('preopen', 0), ('open', []), ('seq', {5: [1], 6: [2]}, ids.fails([6]))]}, ('random', 25 if t else 8)))
@@ -665,6 +665,18 @@ def plan(ctx):
     for _ in range(2500 if t else 260):
         pl.append((rand_scenario(rng, ids), ('random', 1)))
     return pl
+
+
+def corpus():
+    """harness/corpus/c19/*.json: fixed scenarios (+ schedule) that are always run first"""
+    import glob
+    import json
+    import os
+    res = []
+    for f in sorted(glob.glob(os.path.join(os.path.dirname(os.path.dirname(os.path.abspath(__file__))), 'corpus', 'c19', '*.json'))):
+        w = json.load(open(f))
+        res.append(({'uris': w['uris'], 'ops': [tuple(_unjson(op)) for op in w['ops']]}, ('replay', w.get('choices', []))))
+    return res
 
 
 _OBS = {}
@@ -683,7 +695,7 @@ def observe_all(ctx):
     obs = []
     with vsched.Session(step_limit=4000, trace_points=points) as s, contextlib.redirect_stdout(io.StringIO()):
         from cflib.crazyflie.swarm import Swarm
-        for scenario, mode in plan(ctx):
+        for scenario, mode in corpus() + plan(ctx):
             out = {}
             main = make_main(vsched, Swarm, scenario, out)
 
@@ -696,6 +708,10 @@ def observe_all(ctx):
                     record(res, 'dfs')
                 n = len(scenario['uris'])
                 ctx.count('dfs:n=%d:%s' % (n, 'complete' if ex.complete and mode[1] is None else 'bounded'))
+            elif mode[0] == 'replay':
+                record(s.run(main, policy=vsched.Replay(mode[1], strict=False)), 'corpus')
+                for sd in range(3):
+                    record(s.run(main, policy=vsched.Random(sd)), 'corpus')
             else:
                 for _ in range(mode[1]):
                     res = s.run(main, policy=vsched.Random(ctx.rng.randrange(1 << 30), stay=ctx.rng.choice([0.0, 0.0, 0.5, 0.8])))
